@@ -21,7 +21,7 @@ From Coquelicot Require Import Coquelicot.
 From ML Require Import Ops Vec VecR MatR Objectives NCAGrad C10Proof C10Grad.
 From ML Require Import PinsC10.
 From ML Require Import NPNum C10Src.
-From MLgen Require Import Src_nca.
+From MLgen Require Import Src_nca Src_mlkr.
 Import ListNotations.
 Open Scope R_scope.
 
@@ -104,3 +104,27 @@ Proof.
   - rewrite EG. exact G.
 Qed.
 Print Assumptions C10_nca_source.
+
+(* MLKR, source level: MLKR._loss as TRANSLATED on this run (gen/Src_mlkr.v: embedding, pairwise squared distances, softmax
+   with the diagonal excluded, yhat = softmax . y, residuals, cost, W = softmax * ydiff_i * (y_j - yhat_i), symmetrisation with the
+   diagonal filled by minus the column sums, 4 (X A^T)^T W_sym X) returns the documented leave-one-out regression error and a
+   matrix whose Frobenius product with every direction E is the derivative of that error along E, for all real targets. *)
+Definition C10_mlkr_source_stmt : Prop :=
+  forall (k d : nat) (L E X : Rm) (yv : Rv),
+    wfmR k d L -> wfmR k d E -> List.Forall (wfvR d) X -> (2 <= length X)%nat -> length yv = length X ->
+    let r := @mlkr_src ROps exp L X yv in
+    fst r = @mlkr_obj ROps exp L X yv /\
+    snd r = @mlkr_grad ROps exp k d L X yv /\
+    is_derive (fun t => @mlkr_obj ROps exp (line L E t) X yv) 0 (frobR (snd r) E).
+
+Theorem C10_mlkr_source : C10_mlkr_source_stmt.
+Proof.
+  intros k d L E X yv HL HE HX Hn Hy r.
+  destruct (C10_mlkr_gradient k d L E X yv HL HE HX Hn Hy) as [V G].
+  assert (EG: snd r = @mlkr_grad ROps exp k d L X yv) by (apply (mlkr_src_grad exp k d L X yv HL HX); [lia | exact Hy]).
+  split; [|split].
+  - unfold r. rewrite (mlkr_src_loss exp d L X yv HX Hy). exact V.
+  - exact EG.
+  - rewrite EG. exact G.
+Qed.
+Print Assumptions C10_mlkr_source.
